@@ -38,6 +38,7 @@ type tstate struct {
 	fpK, fpV         []string
 	multi            bool
 	os, arch         string
+	platforms        []string // declared platform restriction (selection only: not part of the key's platform component)
 }
 
 func outType(i int) string { return [...]string{"file", "dir", "docker"}[i] }
@@ -60,6 +61,7 @@ func (s *tstate) target() model.Target {
 	if s.multi {
 		t.Tags = []string{model.TagMultiplatformCache}
 	}
+	t.Platforms = append([]string{}, s.platforms...)
 	return t
 }
 
@@ -160,6 +162,10 @@ func VerifC09_platform() {
 	}
 	differ := sym.Or(sym.Not(sym.StrEq(a.os, b.os)), sym.Not(sym.StrEq(a.arch, b.arch)))
 	sym.Assume(differ)
+	// a target that restricts the platforms it may be built on is still keyed by the platform it IS built on
+	if sym.Choice("declares_platforms", 2) == 1 {
+		a.platforms, b.platforms = []string{"l/x", "l/y"}, []string{"l/x", "l/y"}
+	}
 	sym.Assert(a.defKey() != b.defKey(), "C09.ne.platform")
 	a.multi, b.multi = true, true
 	sym.Assert(a.defKey() == b.defKey(), "C09.eq.multiplatform-ignores-platform")
